@@ -43,6 +43,7 @@ type factSet struct {
 	idx map[string]int
 	d   [][]int64
 	neq [][3]int64 // i, j, c :  node_i - node_j != c
+	sum [][3]term  // t, a, b :  t == a + b (interval reasoning only, see close)
 }
 
 func newFactSet() *factSet {
@@ -91,7 +92,59 @@ func (f *factSet) addNE(a, b term, c int64) {
 	f.neq = append(f.neq, [3]int64{int64(i), int64(j), c + b.off - a.off})
 }
 
+// addSum records t == a + b. A difference-bound matrix cannot hold a relation between three
+// variables: close() derives constant bounds on t from the constant bounds of a and b.
+func (f *factSet) addSum(t, a, b term) {
+	f.node(t.node)
+	f.node(a.node)
+	f.node(b.node)
+	f.sum = append(f.sum, [3]term{t, a, b})
+}
+
+// bounds: constant bounds of a term, when both are known.
+func (f *factSet) bounds(t term) (lo, hi int64, ok bool) {
+	if t.node == "" {
+		return t.off, t.off, true
+	}
+	i, z := f.idx[t.node], f.idx[""]
+	if f.d[i][z] >= inf || f.d[z][i] >= inf {
+		return 0, 0, false
+	}
+	return -f.d[z][i] + t.off, f.d[i][z] + t.off, true
+}
+
 func (f *factSet) close() {
+	f.close1()
+	for round := 0; round < 3 && len(f.sum) > 0; round++ {
+		changed := false
+		for _, s := range f.sum {
+			alo, ahi, okA := f.bounds(s[1])
+			blo, bhi, okB := f.bounds(s[2])
+			const lim = 1 << 30 // no wrap-around in any integer type of 32 bits or more
+			if !okA || !okB || alo < -lim || blo < -lim || ahi > lim || bhi > lim {
+				continue
+			}
+			i, z := f.idx[s[0].node], f.idx[""]
+			if i == z {
+				continue
+			}
+			if hi := ahi + bhi - s[0].off; hi < f.d[i][z] {
+				f.d[i][z] = hi
+				changed = true
+			}
+			if lo := alo + blo - s[0].off; -lo < f.d[z][i] {
+				f.d[z][i] = -lo
+				changed = true
+			}
+		}
+		if !changed {
+			break
+		}
+		f.close1()
+	}
+}
+
+func (f *factSet) close1() {
 	n := len(f.d)
 	for round := 0; round < 4; round++ {
 		for k := 0; k < n; k++ {
@@ -204,6 +257,19 @@ func intRange(t types.Type) (lo, hi int64, ok bool) {
 	return -inf, inf, true
 }
 
+// wideInt: an integer type of at least 32 bits.
+func wideInt(t types.Type) bool {
+	b, isB := t.Underlying().(*types.Basic)
+	if !isB {
+		return false
+	}
+	switch b.Kind() {
+	case types.Int, types.Int32, types.Int64, types.Uint, types.Uint32, types.Uint64, types.Uintptr, types.UntypedInt:
+		return true
+	}
+	return false
+}
+
 // valuePreserving: converting from s to d never changes the mathematical value.
 func valuePreserving(s, d types.Type) bool {
 	if !isIntType(s) || !isIntType(d) {
@@ -268,7 +334,7 @@ func (p *prover) killsBetween(path string, a, q ssa.Instruction) bool {
 		if m == a || m == q {
 			return
 		}
-		if instrReaches(a, m) && instrReaches(m, q) {
+		if instrReaches(a, m) && reachesWithoutRedoing(m, q, a) {
 			killed = true
 		}
 	})
@@ -377,6 +443,27 @@ func (p *prover) keyAt(v ssa.Value, q ssa.Instruction) string {
 	case *ssa.Call:
 		if b, ok := x.Call.Value.(*ssa.Builtin); ok && (b.Name() == "len" || b.Name() == "cap") {
 			return "len:" + p.keyAt(x.Call.Args[0], q)
+		}
+		// read-only method of an object (bytes.Buffer.Len ...): the same value as another call on
+		// the same receiver as long as no mutating method of that receiver runs in between
+		if name := callName(&x.Call); readOnlyMethods[name] && len(x.Call.Args) == 1 && q != nil && x.Parent() == q.Parent() {
+			recv := pathOf(x.Call.Args[0])
+			mutated := false
+			eachInstr(x.Parent(), func(_ *ssa.BasicBlock, _ int, m ssa.Instruction) {
+				ci, ok := m.(ssa.CallInstruction)
+				if !ok || mutated || m == ssa.Instruction(x) || len(ci.Common().Args) == 0 || ci.Common().IsInvoke() {
+					return
+				}
+				if pathOf(ci.Common().Args[0]) != recv || readOnlyMethods[callName(ci.Common())] {
+					return
+				}
+				if instrReaches(x, m) && reachesWithoutRedoing(m, q, x) {
+					mutated = true
+				}
+			})
+			if !mutated {
+				return "pure:" + name + "(" + recv + ")"
+			}
 		}
 	case *ssa.Global:
 		return "global:" + pathOf(x)
@@ -699,6 +786,13 @@ func (cl *collector) define(v ssa.Value, depth int) {
 			if lo, _, ok := intRange(x.X.Type()); ok && lo >= 0 {
 				f.addLE(p.intTerm(x.Y, q), t, 0)
 			}
+			if _, isC := constInt(x.X); !isC {
+				if _, isC := constInt(x.Y); !isC && t.node != "" {
+					if wideInt(x.Type()) {
+						f.addSum(t, p.intTerm(x.X, q), p.intTerm(x.Y, q))
+					}
+				}
+			}
 		case token.SUB:
 			// handled by intTerm when the subtrahend is constant; x - y with y>=0 by type
 			if lo, _, ok := intRange(x.Y.Type()); ok && lo >= 0 {
@@ -708,6 +802,23 @@ func (cl *collector) define(v ssa.Value, depth int) {
 				if c, ok := strip(x.Y).(*ssa.Call); ok {
 					if b, isB := c.Call.Value.(*ssa.Builtin); isB && b.Name() == "len" {
 						f.addLE(t, p.intTerm(x.X, q), 0)
+					}
+				}
+			}
+			// x - y of two variables: 0 <= y gives t <= x, y <= x gives 0 <= t (facts that follow
+			// from the definitions of x and y alone)
+			if _, isC := constInt(x.Y); !isC && depth < 6 && wideInt(x.Type()) {
+				sub := &collector{p: p, f: newFactSet(), q: q, seen: map[ssa.Value]bool{}, seenLen: map[ssa.Value]bool{}, nilErr: cl.nilErr, budget: 60}
+				sub.define(x.X, depth+1)
+				sub.define(x.Y, depth+1)
+				sub.f.close()
+				xt, yt := p.intTerm(x.X, q), p.intTerm(x.Y, q)
+				if !sub.f.inconsistent() {
+					if sub.f.le(term{}, yt, 0) {
+						f.addLE(t, xt, 0)
+					}
+					if sub.f.le(yt, xt, 0) {
+						f.addLE(term{}, t, 0)
 					}
 				}
 			}
@@ -767,6 +878,16 @@ func (cl *collector) define(v ssa.Value, depth int) {
 				if isSliceType(buf.Type()) {
 					f.addLE(term{}, t, 0)
 					f.addLE(t, p.lenTerm(buf, q), 0)
+				}
+			}
+			// unicode/utf8 decoders: 0 <= size <= min(4, len(s))
+			switch name {
+			case "unicode/utf8.DecodeRune", "unicode/utf8.DecodeRuneInString", "unicode/utf8.DecodeLastRune", "unicode/utf8.DecodeLastRuneInString":
+				if x.Index == 1 {
+					f.addLE(term{}, t, 0)
+					f.addLE(t, term{"", 4}, 0)
+					f.addLE(t, p.lenTerm(call.Call.Args[0], q), 0)
+					cl.defineLen(call.Call.Args[0], depth+1)
 				}
 			}
 		}
@@ -1010,6 +1131,14 @@ func (cl *collector) defineLen(v ssa.Value, depth int) {
 		}
 		if lowIsC {
 			f.addEQ(lt, high, -lowC)
+		} else if b, ok := strip(x.Low).(*ssa.BinOp); ok && b.Op == token.SUB && x.High == nil {
+			// x[len(x)-k:] has exactly k elements
+			if k, isC := constInt(b.Y); isC {
+				if lc, isLen := strip(b.X).(*ssa.Call); isLen && callName(&lc.Call) == "builtin.len" && strip(lc.Call.Args[0]) == strip(x.X) {
+					f.addEQ(lt, term{"", k}, 0)
+				}
+			}
+			f.addLE(lt, high, 0)
 		} else {
 			f.addLE(lt, high, 0)
 			// len = high - low: when high is the base length we also know low + len = base
@@ -1036,9 +1165,18 @@ func (cl *collector) defineLen(v ssa.Value, depth int) {
 					f.addLE(lt, term{"", n}, 0)
 				}
 			}
+		case "strconv.Itoa":
+			f.addLE(term{"", 1}, lt, 0)
+			f.addLE(lt, term{"", 20}, 0) // sign and 19 digits
+		case "strconv.FormatInt", "strconv.FormatUint":
+			f.addLE(term{"", 1}, lt, 0)
+			f.addLE(lt, term{"", 65}, 0) // base 2: sign and 64 digits
 		case "fmt.Sprintf":
 			if s, ok := constString(args[0]); ok {
 				f.addLE(term{"", int64(minSprintfLen(s))}, lt, 0)
+				if max := maxSprintfLen(s, sprintfArgTypes(x)); max >= 0 {
+					f.addLE(lt, term{"", int64(max)}, 0)
+				}
 			}
 		case "builtin.append":
 			base := p.lenTerm(args[0], q)
@@ -1459,6 +1597,107 @@ func minSprintfLen(format string) int {
 	return n
 }
 
+// sprintfArgTypes: the static types of the variadic arguments of a fmt.Sprintf call (nil when they
+// cannot be identified).
+func sprintfArgTypes(call *ssa.Call) []types.Type {
+	if len(call.Call.Args) != 2 {
+		return nil
+	}
+	if c, ok := call.Call.Args[1].(*ssa.Const); ok && c.IsNil() {
+		return []types.Type{}
+	}
+	sl, ok := call.Call.Args[1].(*ssa.Slice)
+	if !ok {
+		return nil
+	}
+	al, ok := sl.X.(*ssa.Alloc)
+	if !ok {
+		return nil
+	}
+	arr, ok := al.Type().Underlying().(*types.Pointer).Elem().Underlying().(*types.Array)
+	if !ok {
+		return nil
+	}
+	out := make([]types.Type, arr.Len())
+	for _, ref := range *al.Referrers() {
+		ia, ok := ref.(*ssa.IndexAddr)
+		if !ok {
+			continue
+		}
+		k, isC := constInt(ia.Index)
+		if !isC || k < 0 || k >= arr.Len() {
+			return nil
+		}
+		for _, r2 := range *ia.Referrers() {
+			if st, ok := r2.(*ssa.Store); ok {
+				v := st.Val
+				if mi, ok := v.(*ssa.MakeInterface); ok {
+					out[k] = mi.X.Type()
+				}
+			}
+		}
+	}
+	for _, t := range out {
+		if t == nil {
+			return nil
+		}
+	}
+	return out
+}
+
+// maxSprintfLen: an upper bound on the length of fmt.Sprintf(format, args...) or -1 when none is
+// known: literal bytes, %d of a sized integer (at most 20 bytes: sign and 19 digits, or 20 digits
+// unsigned), %c (at most 4 bytes), each widened to its explicit width.
+func maxSprintfLen(format string, args []types.Type) int {
+	if args == nil {
+		return -1
+	}
+	n, ai := 0, 0
+	for i := 0; i < len(format); i++ {
+		if format[i] != '%' {
+			n++
+			continue
+		}
+		i++
+		if i < len(format) && format[i] == '%' {
+			n++
+			continue
+		}
+		for i < len(format) && strings.ContainsRune("+-# 0", rune(format[i])) {
+			i++
+		}
+		w := 0
+		for i < len(format) && format[i] >= '0' && format[i] <= '9' {
+			w = w*10 + int(format[i]-'0')
+			i++
+		}
+		if i >= len(format) || ai >= len(args) {
+			return -1
+		}
+		verb := format[i]
+		b, isBasic := args[ai].Underlying().(*types.Basic)
+		ai++
+		max := -1
+		switch {
+		case verb == 'd' && isBasic && b.Info()&types.IsInteger != 0:
+			max = 20 + 1 // '+' flag
+		case verb == 'c' && isBasic && b.Info()&types.IsInteger != 0:
+			max = 4
+		}
+		if max < 0 {
+			return -1
+		}
+		if w > max {
+			max = w
+		}
+		n += max
+	}
+	if ai != len(args) {
+		return -1 // %!(EXTRA ...) is appended
+	}
+	return n
+}
+
 // edgeFeasible: the edge from block p to block to is not ruled out by the integer conditions
 // that dominate it.
 func (p *prover) edgeFeasible(from, to *ssa.BasicBlock) bool {
@@ -1476,4 +1715,44 @@ func (p *prover) edgeFeasible(from, to *ssa.BasicBlock) bool {
 		}
 	}
 	return !cl.f.inconsistent()
+}
+
+// reachesWithoutRedoing: instruction to can execute after instruction from on a path that does
+// not execute instruction redo again in between (a re-execution refreshes the value redo computes).
+func reachesWithoutRedoing(from, to, redo ssa.Instruction) bool {
+	if from.Block() == to.Block() && instrIndex(from) < instrIndex(to) {
+		// straight line; redo in between?
+		if redo.Block() == from.Block() && instrIndex(redo) > instrIndex(from) && instrIndex(redo) < instrIndex(to) {
+			return false
+		}
+		return true
+	}
+	rb := redo.Block()
+	seen := map[*ssa.BasicBlock]bool{}
+	var stack []*ssa.BasicBlock
+	// leaving from's block: if redo sits after from in the same block it is executed on the way out
+	if rb == from.Block() && instrIndex(redo) > instrIndex(from) {
+		return false
+	}
+	stack = append(stack, from.Block().Succs...)
+	for len(stack) > 0 {
+		b := stack[len(stack)-1]
+		stack = stack[:len(stack)-1]
+		if seen[b] {
+			continue
+		}
+		seen[b] = true
+		if b == to.Block() {
+			if b != rb || instrIndex(to) < instrIndex(redo) {
+				return true
+			}
+			// redo runs before to in this block: value refreshed on this path
+			continue
+		}
+		if b == rb {
+			continue // passing through redo's block re-executes it
+		}
+		stack = append(stack, b.Succs...)
+	}
+	return false
 }
